@@ -32,7 +32,7 @@ ASSUMPTIONS = [
     "bounded scope: 'all float maps' = all maps with h,w <= 3 (plus 1xN/Nx1 strips N<=5; thorough: 3x4, 4x3 over 3 levels and 4x4 over 2 levels) over <= 5 value levels {-1,0,0.3,0.5,1}, plus structured larger maps (3x3 enumerations embedded in 5x5/7x7 zero maps, one/two Gaussian bumps on 5x5 and 7x7)",
     "thresholds {-2, -0.5, 0, 0.3, 0.5} are passed as the float64 value of their float32 rounding, so that 'value == threshold' ties are exact in the maps' dtype (float32)",
     "refinement displacement bound is asserted on the domain where it exists mathematically: non-negative map and positive peak value (regression weights form a convex combination); 'half a patch' is read as the half-extent (patch-1)/2 of the patch's cell-centre grid, +1e-5 float32 slack; outside that domain only count/order/indices/values are asserted and the cases are counted (refine_outside_domain)",
-    "packing independence is checked between layout A (N,1) and layout B (ceil(N/3),3) with the map order rotated (rotation depends on VERIF_SEED) -- other batch shapes are outside the bound",
+    "packing independence is checked between layout A (N,1), layout B (ceil(N/3),3) with the map order rotated (rotation depends on VERIF_SEED) and layout C (= B stored channels-last: a dense non-contiguous tensor) -- other batch shapes are outside the bound",
 ]
 MIN_OUTCOMES = 20
 
@@ -185,7 +185,7 @@ def _fmt_peaks(pts, vals, si, ci, s, c):
     return [(float(p[0]), float(p[1]), float(v)) for p, v in zip(pts[sel], vals[sel])]
 
 
-def examine(spec, thr, rot, patch, layouts=("A", "B")):
+def examine(spec, thr, rot, patch, layouts=("A", "B", "C")):
     """Run one batch (all maps of `spec`) through the real code in the given layouts.
 
     Returns dict(viol=[(map_index|None, layout, msg)], calls, evals, nt (bool per map), codes (set), n_out_domain,
@@ -207,6 +207,8 @@ def examine(spec, thr, rot, patch, layouts=("A", "B")):
         order, S, C = packing(N, layout, rot)
         arr = np.ascontiguousarray(maps[order].reshape(S, C, H, W))
         t = torch.from_numpy(arr.copy())
+        if layout == "C":  # same packing as B, but a dense NON-contiguous tensor: an NHWC buffer viewed as NCHW (channels-last)
+            t = torch.from_numpy(np.ascontiguousarray(arr.transpose(0, 2, 3, 1))).permute(0, 3, 1, 2)
         mask = oracle_mask(arr, thr)
         flat_order = order.reshape(S, C)
         if layout == layouts[0]:
@@ -356,8 +358,9 @@ def examine(spec, thr, rot, patch, layouts=("A", "B")):
         codes.update(f"r{patch}:{v}" for v in np.unique(np.round(pts[first] - rpts[first], 2))[:50].tolist())
 
     # ---- refined result of one map must not depend on its batch-mates --------------------------------------------------
-    if patch is not None and len(refined_by_layout) == 2:
-        (ka, pa), (kb, pb) = refined_by_layout[layouts[0]], refined_by_layout[layouts[1]]
+    for other in [l for l in layouts[1:] if l in refined_by_layout and layouts[0] in refined_by_layout and patch is not None]:
+        (ka, pa), (kb, pb) = refined_by_layout[layouts[0]], refined_by_layout[other]
+        tag = "AB" if other == "B" else "A" + other
         if len(ka) == len(kb) and (ka == kb).all():
             evals += N
             # identical non-finite values (mixed-sign maps, outside the refinement domain) count as equal
@@ -370,13 +373,13 @@ def examine(spec, thr, rot, patch, layouts=("A", "B")):
                     viol.append(
                         (
                             mi,
-                            "AB",
+                            tag,
                             f"integral(patch={patch}): map {maps[mi].tolist()} threshold {thr:g}, grid peak (x={cell % W},y={cell // W}): refined to {pa[j].tolist()} in packing A (N,1) "
-                            f"but to {pb[j].tolist()} in packing B (N/3,3, rotated by {rot}): result depends on the batch-mates",
+                            f"but to {pb[j].tolist()} in packing {other} (N/3,3, rotated by {rot}): result depends on the batch-mates",
                         )
                     )
                 if len(js) > MAX_VIOL_PER_BATCH:
-                    viol.append(("more", "AB", len(js) - MAX_VIOL_PER_BATCH))
+                    viol.append(("more", tag, len(js) - MAX_VIOL_PER_BATCH))
     return {
         "viol": viol,
         "calls": calls,
@@ -568,7 +571,7 @@ def replay(case):
 
     spec, thr, rot, patch = case["spec"], case["threshold"], case["rot"], case.get("patch")
     mi, layout = case.get("map_index"), case.get("layout", "A")
-    layouts = ("A", "B") if layout == "AB" or patch is not None else (layout,)
+    layouts = ("A", "C") if layout in ("C", "AC") else (("A", "B") if layout == "AB" or patch is not None else (layout,))
     r = examine(spec, thr, rot, patch, layouts=layouts)
     mine = [(m, l, msg) for m, l, msg in r["viol"] if m != "more" and (mi is None or m is None or m == mi)]
     # MAX_VIOL_PER_BATCH may hide this map's own line in a batch with many violations: look at it alone, too
